@@ -16,7 +16,7 @@ func TestMain(m *testing.M) { pbt.RunMain(m) }
 var profile = txm.Profile{
 	Name:        "c04",
 	OpKinds:     []string{"begin", "get", "get", "set", "set", "set", "set", "set", "set", "del", "commit", "commit", "commit", "discard", "maint", "reopen", "iter"},
-	MaintKinds:  []string{"rotate", "compact", "once"},
+	MaintKinds:  []string{"rotate", "drain", "once"},
 	ValueSizes:  []int{0, 8, 100, 600, 1500, 3000},
 	MaxOps:      70,
 	MaxKeys:     8,
